@@ -68,11 +68,13 @@ fn tokenize(s: &str) -> Vec<(usize, usize, TK)> {
     v
 }
 
-const REPLACEMENTS: [&str; 30] = [
+const REPLACEMENTS: [&str; 42] = [
     "END", "MACRO", "LAYER", "PIN", ";", "1.5", "-3", "\"unterminated", "RECT", "LIBRARY", "é", "1é", "-é", ".日",
     // numeric extremes: decimal / integer / float limits and odd spellings
     "79228162514264337593543950335", "-79228162514264337593543950335", "79228162514264337593543950336", "99999999999999999999999999999999999999", "0.0000000000000000000000000001", "0.00000000000000000000000000000000001",
     "7922816251426433759354395033.5", "4294967296", "-2147483649", "18446744073709551616", "1e308", "1e-400", "-0", "-", ".", "-.5",
+    // string literals spanning lines, and ASCII characters no token can start with
+    "\"multi\nline\"", "\"two\n\nbreaks", "\"é\n日\"", "\"\n", "_x", "(", "$", "*", "=", "€", "§", "@name",
 ];
 const NONASCII: [&str; 6] = ["é", "日本", "😀", "e\u{301}", "ß", "\u{a0}"];
 
@@ -152,7 +154,11 @@ fn read_case(io: &Io, bytes: &[u8], label: &str, probes: &mut Probes) -> Option<
         }
         Ok(Ok(l)) => {
             probes.hit("reader_returned_ok");
-            // any library it returns can be written and read again without a crash
+            // any library it returns can be written and read again without a crash — also when the disk fails mid-way
+            if h % 16 == 5 {
+                fs.plan(OUT, FilePlan { write: Policy { terms: vec![Term { at: (h >> 20) % 64, kind: TermKind::Enospc, sticky: true }], ..Default::default() }, ..Default::default() });
+                probes.hit("save_with_disk_full");
+            }
             match guard(|| l.save(OUT)) {
                 Err(p) => return Some(panic_violation("LefLibrary::save(of a library the reader returned)", &p, json!({"damage": label, "library": lef_artefact(&l)}))),
                 Ok(Err(_)) => {
